@@ -174,7 +174,7 @@ def replay_cmd(case):
 def nontrivial_key(r):
     """A history is non-trivial when at least one request was accepted AND something else happened to it
     (a delivery, a refusal, a close or a timeout); distinct = distinct (N, P, conn, op list)."""
-    st = r.get("stats", {})
+    st = {k: v for k, v in r.get("stats", {}).items() if not k.startswith("timing-")}   # re-runs of a timing history are not outcomes
     if st.get("accepted", 0) == 0:
         return None
     if len(st) <= 2:    # only accepted + handles
